@@ -158,6 +158,81 @@ class Engine:
         return LoudWalk(cfg, flag, flag_sources=sources, top_loop=top_node)
 
 
+def convergence_reference_not_aliased(ctx, rule="C21.R8"):
+    """A convergence test `new - old` can only fail if `old` is another object than `new`.  Pattern that defeats it:
+        old = cur                      (alias, no copy)
+        cur = update(..., cur)         where update stores into its parameter IN PLACE and returns it
+        diff = cur - old               (identically zero: the assert / warning after the loop can never fire for this part)
+    The callee is resolved among the functions nested in the same routine and the methods of the same class; a callee that rebinds its
+    parameter first (`la_N = -prox(...)`) returns a new object and is fine."""
+    rep = ctx.rep
+    n = 0
+    for rel, mod in sorted(ctx.repo.modules.items()):
+        if not rel.startswith("cardillo/solver/"):
+            continue
+        for q, fn in mod.defs().items():
+            if not isinstance(fn, ast.FunctionDef):
+                continue
+            local_fns = {f.name: f for f in ast.walk(fn) if isinstance(f, ast.FunctionDef) and f is not fn}
+            cls = getattr(fn, "_parent", None)
+            if isinstance(cls, ast.ClassDef):
+                local_fns.update({f.name: f for f in cls.body if isinstance(f, ast.FunctionDef)})
+
+            def inplace_returned(f):
+                """positions (among the call's arguments) of parameters that f stores into in place, never rebinds, and returns"""
+                ps = [a.arg for a in f.args.args]
+                off = 1 if ps and ps[0] == "self" else 0
+                out = {}
+                rets = [r.value for r in ast.walk(f) if isinstance(r, ast.Return) and r.value is not None]
+                for i, p_ in enumerate(ps[off:]):
+                    stores = any(isinstance(w, ast.Assign) and any(isinstance(t, ast.Subscript) and isinstance(t.value, ast.Name) and t.value.id == p_ for t in w.targets) for w in ast.walk(f))
+                    rebinds = any(isinstance(w, ast.Assign) and any(isinstance(t, ast.Name) and t.id == p_ for t in w.targets) for w in ast.walk(f))
+                    if stores and not rebinds:
+                        for r in rets:
+                            elts = r.elts if isinstance(r, ast.Tuple) else [r]
+                            for k, e in enumerate(elts):
+                                if isinstance(e, ast.Name) and e.id == p_:
+                                    out[i] = k
+                return out
+            for loop in [w for w in ast.walk(fn) if isinstance(w, (ast.For, ast.While))]:
+                aliases = {}
+                for st in ast.walk(loop):
+                    if isinstance(st, ast.Assign) and len(st.targets) == 1:
+                        t, v = st.targets[0], st.value
+                        pairs = zip(t.elts, v.elts) if isinstance(t, ast.Tuple) and isinstance(v, ast.Tuple) and len(t.elts) == len(v.elts) else [(t, v)]
+                        for a, b in pairs:
+                            if isinstance(a, ast.Name) and isinstance(b, ast.Name) and a.id != b.id:
+                                aliases[a.id] = (b.id, st)
+                if not aliases:
+                    continue
+                for st in ast.walk(loop):
+                    if not (isinstance(st, ast.Assign) and isinstance(st.value, ast.Call)):
+                        continue
+                    cname = (dotted(st.value.func) or "").split(".")[-1]
+                    f = local_fns.get(cname)
+                    if f is None:
+                        continue
+                    m = inplace_returned(f)
+                    tg = st.targets[0]
+                    outs = tg.elts if isinstance(tg, ast.Tuple) else [tg]
+                    for argi, reti in m.items():
+                        if argi >= len(st.value.args) or reti >= len(outs):
+                            continue
+                        a, o = st.value.args[argi], outs[reti]
+                        if not (isinstance(a, ast.Name) and isinstance(o, ast.Name)):
+                            continue
+                        for old, (src, ast_) in aliases.items():
+                            if src == a.id and ast_.lineno <= st.lineno:
+                                # is `o - old` (or old - o) used?
+                                for w in ast.walk(loop):
+                                    if isinstance(w, ast.BinOp) and isinstance(w.op, ast.Sub) and {getattr(w.left, "id", None), getattr(w.right, "id", None)} == {o.id, old}:
+                                        n += 1
+                                        rep.bad(rule, f"{rel}:{q}", w, f"`{norm_src(w)}` is identically zero: `{old}` is bound to the same array as `{a.id}` (`{norm_src(ast_)[:50]}`, no copy) and "
+                                                f"`{cname}` updates that array in place and returns it as `{o.id}`; this part of the convergence measure can never report non-convergence, so the "
+                                                "failure assert / warning behind the loop is dead for it", f"{rel}:{w.lineno}")
+    rep.ok(rule, "cardillo/solver", f"alias / in-place-update / difference pattern: {n} occurrence(s)", trivial=True)
+
+
 def wrapper_rows(ctx, rule="C21.R6"):
     """The ODE / DAE wrappers cannot truncate by slicing: the integrator itself stops, and `.t`, `.y`, `.yp` of its result hold exactly the
     output instants it reached.  "Returns only converged steps" therefore means: every row field of the returned Solution derives from these
@@ -227,6 +302,8 @@ def run(ctx):
     rep.rule("C21.R7", "the solvers' warnings are audible: no warn(...) in cardillo/solver or fsolve is issued under a suppressing filter the code itself installed, and no 'ignore' filter is installed for good", 10)
     from .c22 import warnings_audible
     warnings_audible(ctx, "C21.R7", ("cardillo/solver/", "cardillo/math/fsolve.py"), floor_calls=8)
+    rep.rule("C21.R8", "no convergence difference in cardillo/solver compares an array with an alias of itself (reference bound without copy + in-place update returned by the iteration map)", 0)
+    convergence_reference_not_aliased(ctx)
     rep.rule("C21.R6", "the ODE / DAE wrappers build t, q, u of the returned Solution from the integrator's own outputs (.t, .y, .yp), never from the dense-output interpolant or the requested grid: after a failure only integrated instants are returned", 6)
     wrapper_rows(ctx)
     rep.rule("C21.R1", "no silent escape of a possibly-false convergence flag", 15)
@@ -534,4 +611,12 @@ NEUTRAL += [
 MUTANTS += [
     dict(id="c21-r7-global", canary=True, what="Moreau's module silences all UserWarnings for good (to get rid of tqdm / scipy noise)", file='cardillo/solver/moreau.py',
          old="import numpy as np\n", new="import numpy as np\nimport warnings as _w\n\n_w.simplefilter(\"ignore\", UserWarning)\n", expect="C21.R7"),
+]
+
+MUTANTS += [
+    dict(id="c21-r8-seed", canary=True, what="[seeded by sub-agent] consistent_initial_conditions tests convergence on the contact forces, the reference being an alias of the array prox() updates in place (friction part identically zero)", file='cardillo/solver/_base.py',
+         old='        x1 = x0.copy()\n        la_N1 = la_N0[B_N].copy()\n        la_F1 = la_F0[B_F].copy()\n        converged_fixed_point = False\n        for i_fixed_point in range(options.fixed_point_max_iter):\n            # find proximal point\n            la_N1, la_F1 = prox(x1, la_N1, la_F1)\n\n            # compute new rhs\n            b = b0.copy()\n            b[: system.nu] += W_N @ la_N1 + W_F @ la_F1\n\n            # solve linear system\n            x1 = lu.solve(b)\n\n            # convergence in accelerations\n            diff = x1[: system.nu] - x0[: system.nu]\n\n            error_fixed_point = np.max(np.absolute(diff))\n\n            converged_fixed_point = error_fixed_point < options.fixed_point_atol\n            if converged_fixed_point:\n                la_N0[B_N] = la_N1\n                la_F0[B_F] = la_F1\n                break\n            else:\n                # update values\n                x0 = x1.copy()\n\n', new='        la_N1 = la_N0[B_N].copy()\n        la_F1 = la_F0[B_F].copy()\n        converged_fixed_point = False\n        for i_fixed_point in range(options.fixed_point_max_iter):\n            # find proximal point\n            la_N_old, la_F_old = la_N1, la_F1\n            la_N1, la_F1 = prox(x0, la_N1, la_F1)\n\n            # compute new rhs\n            b = b0.copy()\n            b[: system.nu] += W_N @ la_N1 + W_F @ la_F1\n\n            # solve linear system\n            x0 = lu.solve(b)\n\n            # convergence in contact forces (the iterated quantities)\n            diff = np.concatenate((la_N1 - la_N_old, la_F1 - la_F_old))\n\n            error_fixed_point = np.max(np.absolute(diff))\n\n            converged_fixed_point = error_fixed_point < options.fixed_point_atol\n            if converged_fixed_point:\n                la_N0[B_N] = la_N1\n                la_F0[B_F] = la_F1\n                break\n\n', expect="C21.R8"),
+]
+NEUTRAL += [
+    dict(id="c21-n-r8", what="consistent_initial_conditions tests convergence on the contact forces against COPIES of the previous iterate", file='cardillo/solver/_base.py', old='        x1 = x0.copy()\n        la_N1 = la_N0[B_N].copy()\n        la_F1 = la_F0[B_F].copy()\n        converged_fixed_point = False\n        for i_fixed_point in range(options.fixed_point_max_iter):\n            # find proximal point\n            la_N1, la_F1 = prox(x1, la_N1, la_F1)\n\n            # compute new rhs\n            b = b0.copy()\n            b[: system.nu] += W_N @ la_N1 + W_F @ la_F1\n\n            # solve linear system\n            x1 = lu.solve(b)\n\n            # convergence in accelerations\n            diff = x1[: system.nu] - x0[: system.nu]\n\n            error_fixed_point = np.max(np.absolute(diff))\n\n            converged_fixed_point = error_fixed_point < options.fixed_point_atol\n            if converged_fixed_point:\n                la_N0[B_N] = la_N1\n                la_F0[B_F] = la_F1\n                break\n            else:\n                # update values\n                x0 = x1.copy()\n\n', new='        la_N1 = la_N0[B_N].copy()\n        la_F1 = la_F0[B_F].copy()\n        converged_fixed_point = False\n        for i_fixed_point in range(options.fixed_point_max_iter):\n            # find proximal point\n            la_N_old, la_F_old = la_N1.copy(), la_F1.copy()\n            la_N1, la_F1 = prox(x0, la_N1, la_F1)\n\n            # compute new rhs\n            b = b0.copy()\n            b[: system.nu] += W_N @ la_N1 + W_F @ la_F1\n\n            # solve linear system\n            x0 = lu.solve(b)\n\n            # convergence in contact forces (the iterated quantities)\n            diff = np.concatenate((la_N1 - la_N_old, la_F1 - la_F_old))\n\n            error_fixed_point = np.max(np.absolute(diff))\n\n            converged_fixed_point = error_fixed_point < options.fixed_point_atol\n            if converged_fixed_point:\n                la_N0[B_N] = la_N1\n                la_F0[B_F] = la_F1\n                break\n\n'),
 ]
